@@ -127,7 +127,7 @@ def vars_to_models(pid):
 
 def add_obligations(pack, tier, pid='C01'):
     pack.trust('np.add.at(a, idx, v) adds v[k] to a[idx[k]] for every k (duplicates accumulate); np.put(a, idx, v) stores')
-    run_contracts(pack, [(e_to_dae(pid),), (fg_to_dae(pid),), (vars_to_models(pid),), (store_adder_setter(pid),)])
+    run_contracts(pack, [(e_to_dae(pid),), (fg_to_dae(pid),), (vars_to_models(pid),), (store_adder_setter(pid), None, replay_store_adder_setter)])
 
 
 def store_adder_setter(pid):
@@ -229,3 +229,48 @@ def store_adder_setter(pid):
         st.ghost.pop('in_iter', None)
     c.pre_state = pre_state
     return c
+
+
+def replay_store_adder_setter(obligation=None, model=None, meta=None):
+    """native: after setup and TDS.init of a system in which two DIFFERENT models carry anti-windup limiters of the same name (TGOV1 and
+    TGOV1N: LAG_lim), every anti-windup limiter of every model with devices is registered in System.antiwindups, every adder / setter /
+    getter variable of every such model is in the system list of its role under its own code"""
+    import contextlib
+    import io
+    import logging
+    import andes
+    from andes.core.discrete import AntiWindup
+    logging.getLogger('andes').setLevel(logging.CRITICAL)
+    with contextlib.redirect_stdout(io.StringIO()), contextlib.redirect_stderr(io.StringIO()):
+        ss = andes.load(andes.get_case('kundur/kundur_full.xlsx'), default_config=True, no_output=True, setup=False)
+        # second governor model on a machine whose stock governor is switched off: TGOV1N has the same block names as TGOV1
+        ss.TGOV1.alter('u', ss.TGOV1.idx.v[3], 0)
+        ss.add('TGOV1N', dict(syn=ss.GENROU.idx.v[3]))
+        ss.setup()
+        ss.PFlow.run()
+        ss.TDS.init()
+    n = 0
+    reg = list(ss.antiwindups)
+    for mname, m in ss.models.items():
+        if m.n == 0:
+            continue
+        for dname, d in m.discrete.items():
+            if isinstance(d, AntiWindup):
+                n += 1
+                if not any(x is d for x in reg):
+                    return {'confirmed': True, 'inputs': {'case': 'kundur_full', 'limiter': '%s.%s' % (mname, dname)},
+                            'observed': 'the anti-windup limiter is not registered in System.antiwindups (%d entries)' % len(reg),
+                            'native_cmd': 'contracts/C01_assembly.py replay_store_adder_setter'}
+        for role, table, code in (('v_adders', ss._adders, 'v_code'), ('e_adders', ss._adders, 'e_code'), ('v_setters', ss._setters, 'v_code'),
+                                  ('e_setters', ss._setters, 'e_code'), ('v_getters', ss._getters, 'v_code')):
+            for vname, var in getattr(m.cache, role).items():
+                n += 1
+                bucket = table[getattr(var, code)]
+                if not any(x is var for x in bucket):
+                    return {'confirmed': True, 'inputs': {'case': 'kundur_full', 'variable': '%s.%s' % (mname, vname), 'role': role},
+                            'observed': 'the variable is missing from the system list of its role under its code %r' % getattr(var, code),
+                            'native_cmd': 'contracts/C01_assembly.py replay_store_adder_setter'}
+    return {'confirmed': False, 'tried': n}
+
+
+replay_store_adder_setter.real_system = True
